@@ -7,7 +7,10 @@
       them switches on the kind of the data or calls anything else on it; keys
       are converted through the same KeyType gate (TryInto); absence is the
       Option discriminant of the lookup (is_none / unwrap_or / match), nothing else;
-  K2  null keys are skipped: under KeyType::Null the per-key code neither pushes
+  K2  null keys — and only they — are skipped: both KeyType conversions type a
+      JSON null as the Null key, a string as a String key carrying the payload, a
+      number as an integer key or Err, everything else Err (the matrix shared with
+      C11 K1); under KeyType::Null the per-key code neither pushes
       nor counts (variant specialisation of the per-key closures);
   K3  the present counter counts only present keys: the value compared with the
       threshold is the result of a fold whose closure returns either the previous
@@ -45,6 +48,46 @@ def lookup_role(roles):
     return c[0]
 
 
+def key_typing(ctx, facts, roles, key_adt, cfg, K):
+    """Which JSON kinds become which key kinds — the same matrix in both conversions (from Value, from &Value)."""
+    items = facts.items
+    convs = [b for b in facts.fns() if b.kind == "fn" and items.get(b.key, {}).get("output", "").startswith("std::result::Result<%s" % key_adt) and items[b.key].get("inputs") in (["serde_json::Value"], ["&serde_json::Value"])]
+    ctx.floor("KeyType conversions (%s)" % cfg, len(convs), 2)
+    mats = []
+    for cb in convs:
+        m = {}
+        u = Unit(roles, cb.key)
+        for v in facts.variants(VALUE):
+            restrict = P.specialise_unit(roles, cb.key, lambda e, a, _v=v: _v if (a == VALUE and e == ("arg", 1)) else None)
+            blocks = restrict[cb.key]
+            with cb.restricted(blocks):
+                r = strip_refs(cb.trace(0))
+            paths = [callee_path(cb.blocks[bi]["term"]) for bi in sorted(blocks) if cb.blocks[bi]["term"]["k"] == "Call" and callee_of(cb.blocks[bi]["term"])]
+            cands = [strip_refs(x) for x in r[2]] if r[0] == "phi" else [r]
+            kinds = set()
+            for c in cands:
+                if c[0] == "agg" and c[1].get("variant") == "Ok":
+                    k = strip_refs(c[2][0])
+                    kinds.add("OK(%s)" % (k[1].get("variant") if k[0] == "agg" else "?"))
+                elif c[0] == "agg" and c[1].get("variant") == "Err":
+                    kinds.add("ERR")
+                elif c[0] == "call" and "from_residual" in c[1]["path"]:
+                    kinds.add("ERR")
+                else:
+                    kinds.add("?")
+            if "serde_json::Number::as_i64" in paths:
+                kinds.add("via as_i64")
+            m[v] = "+".join(sorted(kinds))
+        mats.append((cb, m))
+        want = {"Null": "OK(Null)", "String": "OK(String)", "Number": "ERR+OK(Number)+via as_i64", "Bool": "ERR", "Array": "ERR", "Object": "ERR"}
+        for v, got in m.items():
+            ctx.check(got == want[v], K + ".key-typing", "%s: %s key (%s)" % (cb.key.split("::", 1)[1], v, cfg), "a %s key is typed as %s; expected %s" % (v, got, want[v]), where=cb.where(), fn=cb.key, nontrivial=True,
+                      sample={"conversion": cb.key, "kind": v, "outcome": got})
+    if len(mats) >= 2:
+        ctx.check(all(m == mats[0][1] for _, m in mats), K + ".key-siblings", "both KeyType conversions agree (%s)" % cfg, "the conversions from Value and &Value type keys differently", where=convs[0].where(), nontrivial=True)
+
+
+
 def run(ctx):
     ctx.explanation = __doc__
     ctx.rule = "instances = data-use sites of the three operators, per-key closure facts by key kind, counter/push dominance facts, threshold comparison; non-trivial = provenance, dominance, specialisation"
@@ -56,6 +99,8 @@ def run(ctx):
         p = P.Prov(roles).run()
         lookup = lookup_role(roles)
         key_adt = lookup.locals[2]["adt"]
+        # K2 (first half): only a JSON null is a null key — the gate the skipping below is keyed on
+        key_typing(ctx, facts, roles, key_adt, cfg, "K2")
         units = {}
         for name in ("var", "missing", "missing_some"):
             b, e = roles.fn_of(name)
